@@ -279,8 +279,25 @@ func checkSyntaxInfixParts(node *InfixExpression) Object {
 }
 
 func isConditionExpression(expr Expression) bool {
-	switch expr.(type) {
+	switch node := expr.(type) {
 	case *InfixExpression, *PrefixExpression, *BetweenExpression, *InExpression:
+		return true
+	case *CallExpression:
+		// of the functions only size() yields an operand, the others are conditions
+		return isConditionFunction(node)
+	}
+
+	return false
+}
+
+func isConditionFunction(node *CallExpression) bool {
+	name, ok := node.Function.(*Identifier)
+	if !ok {
+		return false
+	}
+
+	switch name.Value {
+	case "attribute_exists", "attribute_not_exists", "attribute_type", "begins_with", "contains":
 		return true
 	}
 
@@ -849,6 +866,10 @@ func evalOperand(exp Expression, env *Environment) Object {
 	case *IndexExpression:
 		return evalIndex(node, env)
 	case *CallExpression:
+		if isConditionFunction(node) {
+			return newError("the function is not allowed to be used this way in an expression; function: " + node.Function.String())
+		}
+
 		return evalFunctionCall(node, env)
 	}
 
